@@ -29,6 +29,7 @@ type Solver struct {
 	in      io.WriteCloser
 	out     *bufio.Reader
 	defined map[int]bool
+	funs    map[string]bool
 	st      *term.Store
 	Queries int
 	NSat    int
@@ -98,6 +99,19 @@ func (s *Solver) define(t *term.Term) {
 		case term.OpConst:
 		case term.OpVar:
 			s.send(fmt.Sprintf("(declare-const %s %s)", n.Ref(), term.SortStr(n.W)))
+		case term.OpApp:
+			if !s.funs[n.Name] {
+				if s.funs == nil {
+					s.funs = map[string]bool{}
+				}
+				s.funs[n.Name] = true
+				var as []string
+				for _, a := range n.Args {
+					as = append(as, term.SortStr(a.W))
+				}
+				s.send(fmt.Sprintf("(declare-fun %s (%s) %s)", n.Name, strings.Join(as, " "), term.SortStr(n.W)))
+			}
+			s.send(fmt.Sprintf("(define-fun %s () %s %s)", n.Ref(), term.SortStr(n.W), n.Body()))
 		default:
 			s.send(fmt.Sprintf("(define-fun %s () %s %s)", n.Ref(), term.SortStr(n.W), n.Body()))
 		}
